@@ -5,11 +5,12 @@ package main
 
 import (
 	"fmt"
-	"os"
 	"go/constant"
 	"go/token"
 	"go/types"
+	"os"
 	"sort"
+	"strconv"
 	"strings"
 
 	"golang.org/x/tools/go/ssa"
@@ -19,10 +20,13 @@ type term struct {
 	K string // kind
 	S string
 	A []*term
+	// loop reads ("A*k"): the wire position of the loop's first read in its first iteration
+	// (0 = unknown) and the number of reads one iteration makes. Not printed.
+	LoopBase, Period int
 }
 
-func tConst(s string) *term         { return &term{K: "const", S: s} }
-func tUnknown(s string) *term       { return &term{K: "?", S: s} }
+func tConst(s string) *term          { return &term{K: "const", S: s} }
+func tUnknown(s string) *term        { return &term{K: "?", S: s} }
 func tOp(n string, a ...*term) *term { return &term{K: "op", S: n, A: a} }
 
 func (t *term) String() string {
@@ -109,18 +113,19 @@ func tAlt(ts ...*term) *term {
 
 // symEnv is the evaluation context of one function activation.
 type symEnv struct {
-	p      *Program
-	fn     *ssa.Function
-	bind   map[*ssa.Parameter]*term
-	fbind  map[*ssa.FreeVar]*term
-	base   int  // wire position of the first read of this activation minus 1
-	baseOK bool // false: positions are not known (after a variadic read / inside an option loop)
-	cursor ssa.Value
-	relBase int // >= 0: this activation runs inside a loop iteration of a caller, after relBase reads
-	depth  int
-	x      *extractor
-	memo   map[ssa.Value]*term
-	busy   map[ssa.Value]bool
+	p        *Program
+	fn       *ssa.Function
+	bind     map[*ssa.Parameter]*term
+	fbind    map[*ssa.FreeVar]*term
+	base     int  // wire position of the first read of this activation minus 1
+	baseOK   bool // false: positions are not known (after a variadic read / inside an option loop)
+	cursor   ssa.Value
+	relBase  int // >= 0: this activation runs inside a loop iteration of a caller, after relBase reads
+	depth    int
+	x        *extractor
+	memo     map[ssa.Value]*term
+	busy     map[ssa.Value]bool
+	children map[*ssa.Call]*symEnv
 }
 
 // HandlerCall is one call of a command-handler interface method found during extraction.
@@ -291,7 +296,16 @@ func (x *extractor) readWeight(call *ssa.Call, cur ssa.Value) (int, bool, bool) 
 // positions computes, for every read call of fn on cursor cur, the wire position of its first read
 // relative to the activation (1-based), or -1 when unknown (in a loop or after a variadic read).
 func (x *extractor) positions(fn *ssa.Function, cur ssa.Value) map[*ssa.Call]int {
+	pos, _, _ := x.positionsX(fn, cur)
+	return pos
+}
+
+// positionsX also returns, for reads inside a loop, the activation-relative position of the
+// loop's first read in its first iteration (0 = unknown) and the reads per iteration.
+func (x *extractor) positionsX(fn *ssa.Function, cur ssa.Value) (map[*ssa.Call]int, map[*ssa.Call]int, map[*ssa.Call]int) {
 	pos := map[*ssa.Call]int{}
+	lbase := map[*ssa.Call]int{}
+	period := map[*ssa.Call]int{}
 	type site struct {
 		c *ssa.Call
 		n int
@@ -346,6 +360,42 @@ func (x *extractor) positions(fn *ssa.Function, cur ssa.Value) map[*ssa.Call]int
 				}
 			}
 			pos[s.c] = -rel
+			// the innermost loop holding the read: reads before it fix where it starts
+			var in *Loop
+			for _, l := range loops {
+				if l.Blocks[s.c.Block()] && (in == nil || len(l.Blocks) < len(in.Blocks)) {
+					in = l
+				}
+			}
+			if in != nil {
+				start, okStart, per := 1, true, 0
+				for _, o := range sites {
+					if in.Blocks[o.c.Block()] {
+						per += o.n
+						if o.v {
+							per += 100
+						}
+						continue
+					}
+					if o.c.Block().Dominates(in.Header) {
+						if o.v || inLoop[o.c.Block()] {
+							okStart = false
+						}
+						start += o.n
+					} else if !in.Header.Dominates(o.c.Block()) {
+						// a read on some path to the loop but not all: the start varies
+						for b := range reachableBlocks(o.c.Block(), nil) {
+							if b == in.Header {
+								okStart = false
+							}
+						}
+					}
+				}
+				if okStart {
+					lbase[s.c] = start
+				}
+				period[s.c] = per
+			}
 			continue
 		}
 		p := 1
@@ -371,7 +421,7 @@ func (x *extractor) positions(fn *ssa.Function, cur ssa.Value) map[*ssa.Call]int
 		}
 		pos[s.c] = p
 	}
-	return pos
+	return pos, lbase, period
 }
 
 func newEnv(x *extractor, fn *ssa.Function, base int, baseOK bool, depth int) *symEnv {
@@ -629,16 +679,22 @@ func (e *symEnv) eval1(v ssa.Value) *term {
 			return &term{K: "sym", S: "newmap"}
 		}
 		k, v := tAlt(ks...), tAlt(vs...)
-		// pairs(Ak): keys are the reads at k, k+2, ... and values the reads following them
-		if v.K == "arg" && strings.HasPrefix(v.S, "A*") && k.K == "alt" && len(k.A) == 2 {
-			a, b := k.A[0].String(), k.A[1].String()
-			if strings.HasPrefix(a, "A*") {
+		// pairs(Ak): keys are the reads at k, k+2, ... and values the reads following them —
+		// either the first key read before a two-read loop (value, next key), or a loop of
+		// (key, value) reads starting at k
+		if v.K == "arg" && v.S == "A*1" && v.Period == 2 && k.K == "alt" && len(k.A) == 2 {
+			a, b := k.A[0], k.A[1]
+			if strings.HasPrefix(a.S, "A*") {
 				a, b = b, a
 			}
-			// key = the read at Ak or the last read of an iteration; value = the first read of the iteration
-			if strings.HasPrefix(b, "A*") && strings.HasPrefix(a, "A") && !strings.HasPrefix(a, "A*") && !strings.Contains(a, "(") && v.S == "A*1" {
-				return tOp("pairs", &term{K: "arg", S: a})
+			if b.K == "arg" && b.S == "A*2" && a.K == "arg" && strings.HasPrefix(a.S, "A") && !strings.HasPrefix(a.S, "A*") && !strings.Contains(a.S, "(") {
+				if n, err := strconv.Atoi(a.S[1:]); err == nil && v.LoopBase == n+1 {
+					return tOp("pairs", &term{K: "arg", S: a.S})
+				}
 			}
+		}
+		if k.K == "arg" && k.S == "A*1" && v.K == "arg" && v.S == "A*2" && k.Period == 2 && k.LoopBase > 0 {
+			return tOp("pairs", &term{K: "arg", S: fmt.Sprintf("A%d", k.LoopBase)})
 		}
 		return tOp("map", k, v)
 	case *ssa.Next:
@@ -726,6 +782,93 @@ func (e *symEnv) evalAddr(v ssa.Value) *term {
 	return e.eval(v)
 }
 
+// keywordShift: when the keyword guarding block b was read earlier in the same loop iteration
+// (loop written `for { kw := read(); switch kw {...} }`), the number of reads of the iteration up
+// to and including the keyword read: option values are named by their distance from their
+// keyword, whichever way the loop is rotated. 0 when the keyword came from the previous
+// iteration / before the loop.
+func (e *symEnv) keywordShift(b *ssa.BasicBlock) int {
+	cur := e.cursorValue()
+	if cur == nil {
+		return 0
+	}
+	var kwRead *ssa.Call
+	for _, at := range factsAt(b) {
+		if at.Kind != "eq" {
+			continue
+		}
+		for _, pr := range [][2]ssa.Value{{at.X, at.Y}, {at.Y, at.X}} {
+			if _, ok := constString(pr[1]); !ok {
+				continue
+			}
+			if t := e.eval(pr[0]); !(t.K == "op" && t.S == "upper") {
+				continue
+			}
+			// upper(x): x is the string result of a cursor read
+			v := strip(pr[0])
+			for d := 0; d < 4 && v != nil; d++ {
+				switch x := v.(type) {
+				case *ssa.Call:
+					if _, _, isRead := e.x.readWeight(x, cur); isRead {
+						kwRead = x
+						v = nil
+					} else if len(x.Common().Args) > 0 {
+						v = strip(x.Common().Args[0])
+					} else {
+						v = nil
+					}
+				case *ssa.Extract:
+					v = x.Tuple
+				default:
+					v = nil
+				}
+			}
+		}
+	}
+	if kwRead == nil {
+		return 0
+	}
+	pos := e.x.positions(e.fn, cur)[kwRead]
+	if pos >= 0 {
+		return 0
+	}
+	same := false
+	for _, l := range naturalLoops(e.fn) {
+		if l.Blocks[kwRead.Block()] && l.Blocks[b] {
+			same = true
+		}
+	}
+	if !same || !(kwRead.Block() == b || kwRead.Block().Dominates(b)) {
+		return 0
+	}
+	return -pos
+}
+
+// shiftRel renames the loop reads A*n inside t to A*(n-delta).
+func shiftRel(t *term, delta int) *term {
+	if t == nil || delta == 0 {
+		return t
+	}
+	nt := *t
+	if t.K == "arg" {
+		if i := strings.Index(t.S, "A*"); i >= 0 {
+			j := i + 2
+			for j < len(t.S) && t.S[j] >= '0' && t.S[j] <= '9' {
+				j++
+			}
+			if n, err := strconv.Atoi(t.S[i+2 : j]); err == nil && n > delta {
+				nt.S = t.S[:i+2] + strconv.Itoa(n-delta) + t.S[j:]
+			}
+		}
+		return &nt
+	}
+	nt.A = nil
+	for _, a := range t.A {
+		nt.A = append(nt.A, shiftRel(a, delta))
+	}
+	return &nt
+}
+
 // keywordGuard: the keyword constants under which block b executes (switch over an upper-cased read).
 func (e *symEnv) keywordGuard(b *ssa.BasicBlock) []string {
 	var kws []string
@@ -744,6 +887,39 @@ func (e *symEnv) keywordGuard(b *ssa.BasicBlock) []string {
 			} else if _, _, isArg := argOf(t); isArg {
 				kws = append(kws, "exact:"+k)
 			}
+		}
+	}
+	if len(kws) == 0 {
+		// the remaining alternative of a multi-constant case: entered under K1|K2|..., with all
+		// but one excluded by the negative tests dominating b
+		neg := map[string]bool{}
+		for _, at := range factsAt(b) {
+			if at.Kind != "eq" || at.Pos {
+				continue
+			}
+			for _, pr := range [][2]ssa.Value{{at.X, at.Y}, {at.Y, at.X}} {
+				if k, ok := constString(pr[1]); ok {
+					if t := e.eval(pr[0]); t.K == "op" && t.S == "upper" {
+						neg[k] = true
+					}
+				}
+			}
+		}
+		for d := b; d != nil && len(neg) > 0; d = d.Idom() {
+			ck := e.caseKeywords(d)
+			if len(ck) < 2 {
+				continue
+			}
+			var rem []string
+			for _, k := range ck {
+				if !neg[k] {
+					rem = append(rem, k)
+				}
+			}
+			if len(rem) == 1 {
+				kws = append(kws, rem[0])
+			}
+			break
 		}
 	}
 	return kws
@@ -815,9 +991,41 @@ func (e *symEnv) evalAlloc(a *ssa.Alloc) *term {
 					val := e.eval(s.Val)
 					kws := e.keywordGuard(s.Block())
 					if len(kws) > 0 {
-						val = tOp("kw["+strings.Join(kws, "+")+"]", val)
+						val = tOp("kw["+strings.Join(kws, "+")+"]", shiftRel(val, e.keywordShift(s.Block())))
 					}
 					byField[name] = append(byField[name], val)
+				}
+			case *ssa.Call:
+				// the struct's address handed to a framework helper that fills fields in
+				callee := staticCallee(x.Common())
+				if callee == nil || callee.Blocks == nil || !inFramework(callee) || e.depth > 5 {
+					continue
+				}
+				ne := e.childEnv(x, callee)
+				outer := e.keywordGuard(x.Block())
+				for i, arg := range x.Common().Args {
+					if arg != ssa.Value(a) || i >= len(callee.Params) || callee.Params[i].Referrers() == nil {
+						continue
+					}
+					for _, pr := range *callee.Params[i].Referrers() {
+						fa, ok := pr.(*ssa.FieldAddr)
+						if !ok || fa.Referrers() == nil {
+							continue
+						}
+						name := st.Field(fa.Field).Name()
+						for _, rr := range *fa.Referrers() {
+							s, ok := rr.(*ssa.Store)
+							if !ok || s.Addr != ssa.Value(fa) {
+								continue
+							}
+							val := ne.eval(s.Val)
+							kws := append(append([]string{}, outer...), ne.keywordGuard(s.Block())...)
+							if len(kws) > 0 {
+								val = tOp("kw["+strings.Join(kws, "+")+"]", shiftRel(val, e.keywordShift(x.Block())))
+							}
+							byField[name] = append(byField[name], val)
+						}
+					}
 				}
 			case *ssa.Store:
 				if x.Addr == ssa.Value(a) {
@@ -909,9 +1117,15 @@ func (e *symEnv) evalCall(call *ssa.Call) []*term {
 	if kind, ok := cursorPrims[n]; ok && len(cc.Args) > 0 {
 		recv := e.eval(cc.Args[0])
 		if recv.K == "sym" && recv.S == "args" {
-			pos := e.x.positions(e.fn, e.cursorValue())[call]
+			posm, lbm, perm := e.x.positionsX(e.fn, e.cursorValue())
+			pos := posm[call]
 			if pos < 0 {
-				return []*term{wrapKind(kind, relName(-pos)), errT}
+				t := wrapKind(kind, relName(-pos))
+				t.Period = perm[call]
+				if e.baseOK && lbm[call] > 0 {
+					t.LoopBase = e.base + lbm[call]
+				}
+				return []*term{t, errT}
 			}
 			if !e.baseOK && e.relBase >= 0 && pos > 0 {
 				return []*term{wrapKind(kind, relName(e.relBase+pos)), errT}
@@ -947,6 +1161,20 @@ func (e *symEnv) evalCall(call *ssa.Call) []*term {
 		return []*term{convArg(e.eval(cc.Args[0]), "int"), errT}
 	case "strconv.Itoa":
 		return []*term{tOp("itoa", e.eval(cc.Args[0]))}
+	case "strings.HasPrefix":
+		// the exclusive-bound marker test, written with the strings package
+		if k, ok := constString(cc.Args[1]); ok && k == "(" {
+			if _, a, isArg := argOf(e.eval(cc.Args[0])); isArg {
+				return []*term{wrapKind("excl", a)}
+			}
+		}
+		return []*term{tOp("hasprefix", e.eval(cc.Args[0]), e.eval(cc.Args[1]))}
+	case "strings.TrimPrefix":
+		// dropping the exclusive-bound marker: the read without its first byte, as str[1:]
+		if k, ok := constString(cc.Args[1]); ok && k == "(" {
+			return []*term{tOp("slice", e.eval(cc.Args[0]), tConst("0|1"), tConst("nil"))}
+		}
+		return []*term{tOp("trimprefix", e.eval(cc.Args[0]), e.eval(cc.Args[1]))}
 	case "strings.ToUpper":
 		return []*term{tOp("upper", e.eval(cc.Args[0]))}
 	case "strings.ToLower":
@@ -1023,6 +1251,14 @@ func convArg(t *term, kind string) *term {
 		for _, a := range t.A {
 			alts = append(alts, convArg(a, kind))
 		}
+		// the read itself or the read without its exclusive marker: the marker-skipping number
+		if kind == "float" && len(alts) == 2 {
+			k0, a0, ok0 := argOf(alts[0])
+			k1, a1, ok1 := argOf(alts[1])
+			if ok0 && ok1 && a0 == a1 && ((k0 == "float" && k1 == "num") || (k0 == "num" && k1 == "float")) {
+				return wrapKind("num", a0)
+			}
+		}
 		return tAlt(alts...)
 	}
 	if k, a, ok := argOf(t); ok {
@@ -1058,6 +1294,16 @@ func (e *symEnv) inline(call *ssa.Call, callee *ssa.Function) []*term {
 	if e.depth > 6 {
 		return []*term{tUnknown("inline depth")}
 	}
+	ne := e.childEnv(call, callee)
+	return ne.results(callee)
+}
+
+// childEnv: the environment of callee activated by call (cursor positions carried over,
+// parameters bound to the evaluated arguments).
+func (e *symEnv) childEnv(call *ssa.Call, callee *ssa.Function) *symEnv {
+	if ne, ok := e.children[call]; ok {
+		return ne
+	}
 	cc := call.Common()
 	base, baseOK := e.base, e.baseOK
 	relBase := -1
@@ -1082,6 +1328,11 @@ func (e *symEnv) inline(call *ssa.Call, callee *ssa.Function) []*term {
 	ne.relBase = relBase
 	if e.relBase >= 0 && relBase < 0 && !baseOK {
 		ne.relBase = e.relBase
+		if passesCursor {
+			if pos := e.x.positions(e.fn, e.cursorValue())[call]; pos > 0 {
+				ne.relBase = e.relBase + pos - 1
+			}
+		}
 	}
 	for i, p := range callee.Params {
 		if i < len(cc.Args) {
@@ -1103,7 +1354,16 @@ func (e *symEnv) inline(call *ssa.Call, callee *ssa.Function) []*term {
 			}
 		}
 	}
+	if e.children == nil {
+		e.children = map[*ssa.Call]*symEnv{}
+	}
+	e.children[call] = ne
 	ne.evalEffects()
+	return ne
+}
+
+// results: the alternatives of each result over the success returns of the activation.
+func (ne *symEnv) results(callee *ssa.Function) []*term {
 	nres := callee.Signature.Results().Len()
 	results := make([][]*term, nres)
 	any := false
@@ -1235,15 +1495,27 @@ func mkList(elems []*term) *term {
 		}
 	}
 	sort.Slice(out, func(i, j int) bool { return out[i].String() < out[j].String() })
-	// rest(Ak): the elements are the string read at position k and the following reads
-	if len(out) == 2 && out[0].K == "arg" && out[1].K == "arg" {
-		a, b := out[0].S, out[1].S
-		if strings.HasPrefix(a, "A*") {
-			a, b = b, a
+	// rest(Ak): every argument from position k on, one per iteration — either the read at Ak
+	// followed by a one-read loop starting at k+1, or a one-read loop starting at k
+	isAbs := func(t *term) (int, bool) {
+		if t.K != "arg" || !strings.HasPrefix(t.S, "A") || strings.HasPrefix(t.S, "A*") || strings.Contains(t.S, "(") {
+			return 0, false
 		}
-		if strings.HasPrefix(b, "A*") && strings.HasPrefix(a, "A") && !strings.HasPrefix(a, "A*") && !strings.Contains(a, "(") {
-			return tOp("rest", &term{K: "arg", S: a})
+		k, err := strconv.Atoi(t.S[1:])
+		return k, err == nil
+	}
+	isLoop1 := func(t *term) bool { return t.K == "arg" && t.S == "A*1" && t.Period == 1 }
+	if len(out) == 2 {
+		x, y := out[0], out[1]
+		if isLoop1(x) {
+			x, y = y, x
 		}
+		if k, ok := isAbs(x); ok && isLoop1(y) && y.LoopBase == k+1 {
+			return tOp("rest", &term{K: "arg", S: x.S})
+		}
+	}
+	if len(out) == 1 && isLoop1(out[0]) && out[0].LoopBase > 0 {
+		return tOp("rest", &term{K: "arg", S: fmt.Sprintf("A%d", out[0].LoopBase)})
 	}
 	return tOp("list", out...)
 }
